@@ -114,6 +114,7 @@ var arena struct {
 	buf, snap   []byte
 	off         int
 	allowWrites bool
+	exactCap    bool // stream P1: its model of run-time panics assumes slices whose capacity equals their length
 }
 
 const arenaSize = 1 << 15
@@ -149,6 +150,9 @@ func arenaAlloc(b []byte) []byte {
 	}
 	copy(arena.snap[o:], arena.buf[o:o+len(b)+8])
 	arena.off = o + len(b) + 8
+	if arena.exactCap {
+		return arena.buf[o : o+len(b) : o+len(b)]
+	}
 	return arena.buf[o : o+len(b)] // capacity reaches to the end of the arena: appends land on the next argument
 }
 
@@ -178,6 +182,7 @@ func execLine(line string) string {
 	}
 	done := make(chan string, 1)
 	arenaReset()
+	arena.exactCap = strings.HasPrefix(line, "P1 ")
 	go func() {
 		r := execLineInner(line)
 		if !arenaIntact() {
